@@ -57,6 +57,10 @@ Failed(r) ==
       THEN {} ELSE {"p_one_gives_an_error_on_every_qubit"})
 \cup (IF \A q \in DOMAIN r.wx : Close(r.wx[q], G, PX(ch[q]), D2, Tol) /\ Close(r.wz[q], G, PZ(ch[q]), D2, Tol)
       THEN {} ELSE {"matching_weights_are_llr_of_flip_marginals"})
+\* the weights on the edges of the matching graphs the decoder builds
+\cup (IF /\ \A j \in DOMAIN r.mwx : Close(r.mwx[j][2], G, PX(ch[r.mwx[j][1]]), D2, Tol)
+         /\ \A j \in DOMAIN r.mwz : Close(r.mwz[j][2], G, PZ(ch[r.mwz[j][1]]), D2, Tol)
+      THEN {} ELSE {"weights_on_the_matching_graph_are_llr_of_flip_marginals"})
 \cup (IF \A q \in DOMAIN r.bp_px : Close(r.bp_px[q], G, PX(ch[q]), D2, Tol) /\ Close(r.bp_pz[q], G, PZ(ch[q]), D2, Tol)
       THEN {} ELSE {"bp_channel_probabilities_are_flip_marginals"})
 \cup (IF \A u \in DOMAIN r.upd :
